@@ -55,6 +55,12 @@ type VC struct {
 	epochCnt   int
 	inputs     []string // names of input constants (for model display)
 	funcsSeen  map[string]bool
+	immGlobals []immGlobal
+}
+
+type immGlobal struct {
+	ref string
+	ty  types.Type
 }
 
 func (vc *VC) note(s string) { vc.notes[s] = true }
